@@ -294,6 +294,8 @@ def _one_call(case, ctx, bias, via, record):
     else:
         raise ValueError(op)
     require(torch.equal(env.X, Xc), op + "-input-modified", "")
+    for a_, vals in zip(env.args, env.argvals):
+        require(torch.equal(a_, torch.tensor(vals, dtype=torch.int64)), op + "-args-modified", "an extra model argument tensor was changed")
     if afk is not None:
         require(afk == {"bias": bias}, op + "-caller-dict-modified", lambda: "additional_func_kwargs became %r" % (afk,))
     if record:
